@@ -33,8 +33,13 @@ def loc_of(e):
 class Sink:
     def __init__(self):
         self.items = []
+        self._seen = set()
 
     def emit(self, rule, status, key, loc='', detail='', data=None):
+        sig = (rule, status, key, loc)
+        if sig in self._seen:
+            return
+        self._seen.add(sig)
         self.items.append({'rule': rule, 'status': status, 'key': key, 'loc': loc, 'detail': detail, 'data': data})
 
     def ok(self, rule, key, loc='', detail=''):
